@@ -120,5 +120,51 @@ def check(case, ctx):
                         "A=%s B=%s" % (got, matched, a, b))
 
 
+@st.composite
+def mutation_cases(draw, tier):
+    """a dataset is compared, mutated in place (remove_elements / presence-rate filter / remove_empty_rankings),
+    compared again, ...: equality must follow the CURRENT rankings"""
+    from checks.c16 import RATES
+    ds = draw(gen.datasets(max_n=6, max_m=5, kinds=("dense", "mult8", "str")))
+    ops = []
+    for _ in range(draw(st.integers(1, 4))):
+        k = draw(st.sampled_from(["remove", "rate", "remove_empty", "remove_empty"]))
+        if k == "remove":
+            ops.append({"op": "remove", "mask": draw(st.integers(0, 63)), "as_elements": draw(st.booleans())})
+        elif k == "rate":
+            ops.append({"op": "rate", "rate": draw(st.sampled_from(RATES))})
+        else:
+            ops.append({"op": "remove_empty"})
+    return {"rankings": ds["rankings"], "ops": ops, "compare_before": draw(st.booleans())}
+
+
+def check_after_mutation(case, ctx):
+    from checks.c16 import Interp
+    it = Interp({"rankings": case["rankings"]})
+    models = [[list(map(list, r)) for r in it.model]]
+    done = 0
+    for op in case["ops"]:
+        if case["compare_before"]:
+            if not lib.must(lambda: it.d == lib.mk_dataset(it.model)):
+                raise Violation("dataset %s differs from a fresh dataset with the same rankings" % it.model)
+        it.apply(op)
+        if it.ended:
+            break
+        done += 1
+        models.append([list(map(list, r)) for r in it.model])
+        fresh = lib.mk_dataset(it.model)
+        if not (lib.must(lambda: it.d == fresh) and lib.must(lambda: fresh == it.d)):
+            raise Violation("after %s the dataset holds %s but does not compare equal to a fresh dataset with these "
+                            "rankings" % (op, it.model))
+        for old in models[:-1]:
+            want = model_counter(old) == model_counter(it.model)
+            got = lib.must(lambda: it.d == lib.mk_dataset(old))
+            if got != want:
+                raise Violation("after %s the dataset holds %s; compared with a dataset holding its earlier rankings "
+                                "%s it answers %r" % (op, it.model, old, got))
+    ctx.stats.case(case, done >= 1 and any(not r for r in case["rankings"]), ["ops_done:%d" % done])
+
+
 def subchecks():
-    return [HypSub("pairs", pair_cases, check, 12000, 150000)]
+    return [HypSub("pairs", pair_cases, check, 12000, 150000),
+            HypSub("after_mutation", mutation_cases, check_after_mutation, 3000, 40000)]
